@@ -3,9 +3,11 @@
 
   Only property theorems live here (helper lemmas: Proofs/Codec.lean).  They
   are about the model of /repo/num's codec in Model/Codec.lean (the code as it
-  is after fix 36384ed and the fix decoding quoted JSON values) and relate it to the specification in Spec/C06.lean:
-  the hand-written recognisers of the two published patterns, the exact
-  decimal reading of a pattern member, and the 64-bit condition `fits64`.
+  is after fix 36384ed, the fix decoding quoted JSON values, and the fixes of
+  the int64 minimum and of the percentage conversions) and relate it to the
+  specification in Spec/C06.lean: the hand-written recognisers of the two
+  published patterns, the exact decimal reading of a pattern member, and the
+  64-bit condition `fits64` (−2^63 … 2^63−1, at most 18 decimals).
 -/
 import GoblVerif.Spec.C06
 import GoblVerif.Generated.CodecFacts
@@ -19,99 +21,82 @@ open GoblVerif GoblVerif.Codec GoblVerif.Spec.C06
 
 /-! ## amounts: writing then reading -/
 
-private theorem natAbs_lt (v : ℤ) (hlo : -(2 : ℤ) ^ 63 < v) (hhi : v < (2 : ℤ) ^ 63) : v.natAbs < 2 ^ 63 := by
-  omega
-
-/-- Writing an amount with at most 18 decimals and |value| < 2^63 and reading the
-    text back gives the same value **and** the same exponent. -/
+/-- Writing **any** int64 amount with at most 18 decimals and reading the text back
+    gives the same value **and** the same exponent — the most negative value
+    included (it used to be written as `--922….-8`, and its correct text used to
+    be rejected: former known finding `amount-min-int64`). -/
 theorem amount_roundtrip (a : Amount) (he : a.exp ≤ 18)
-    (hlo : -(2 : ℤ) ^ 63 < a.value) (hhi : a.value < (2 : ℤ) ^ 63) :
+    (hlo : -(2 : ℤ) ^ 63 ≤ a.value) (hhi : a.value < (2 : ℤ) ^ 63) :
     amountFromString (amountToString a) = .ok a := by
   obtain ⟨v, e⟩ := a
   simp only at he hlo hhi
-  have hv := natAbs_lt v hlo hhi
-  obtain ⟨body, htext, hnm, _, hparse⟩ := amountToString_parse v e he hv
-  rw [htext]
-  by_cases hneg : v < 0
-  · simp only [hneg, if_true]
-    rw [amountFromString_minus body _ hparse]
-    simp only
-    rw [wrap64_id _ (by unfold minInt64; omega) (by unfold maxInt64; omega)]
-    congr 2; omega
-  · simp only [hneg, if_false]
-    rw [amountFromString_plain body hnm _ hparse]
-    simp only
-    congr 2; omega
+  obtain ⟨body, htext, hnm, _, hparse⟩ := amountToString_parse v e he hlo hhi
+  rw [htext, amountFromString_sgn _ body (fun _ => hnm), hparse]
 
-/-- The written text is a member of `^\-?[0-9]+(\.[0-9]+)?$`. -/
+/-- The written text of every int64 amount is a member of `^\-?[0-9]+(\.[0-9]+)?$`. -/
 theorem amount_text_matches (a : Amount) (he : a.exp ≤ 18)
-    (hlo : -(2 : ℤ) ^ 63 < a.value) (hhi : a.value < (2 : ℤ) ^ 63) :
+    (hlo : -(2 : ℤ) ^ 63 ≤ a.value) (hhi : a.value < (2 : ℤ) ^ 63) :
     isAmountText (amountToString a) = true := by
   obtain ⟨v, e⟩ := a
   simp only at he hlo hhi
-  obtain ⟨body, htext, hnm, hbody, _⟩ := amountToString_parse v e he (natAbs_lt v hlo hhi)
+  obtain ⟨body, htext, hnm, hbody, _⟩ := amountToString_parse v e he hlo hhi
   rw [htext]
   unfold isAmountText
   by_cases hneg : v < 0
-  · simp only [hneg, if_true]; exact hbody
-  · simp only [hneg, if_false]
-    rw [stripMinus_eq, hnm.2]; exact hbody
+  · simp only [hneg, decide_true, sgn, if_true]; exact hbody
+  · simp only [hneg, decide_false, sgn, Bool.false_eq_true, if_false]
+    rw [stripMinus_eq]
+    have : trimPrefixMinus body = body := by
+      cases body with
+      | nil => rfl
+      | cons c r =>
+        by_cases hc : c = '-'
+        · subst hc; simp [hasPrefixMinus] at hnm
+        · simp [trimPrefixMinus, hc]
+    rw [this]; exact hbody
 
-/-- The excluded point really is excluded: −2^63 is written as a text outside the
-    pattern (one decimal shown; the harness shows all exponents) and, without
-    decimals, as a text the parser rejects.  (Known finding `amount-min-int64`.) -/
-theorem min_int64_does_not_roundtrip :
-    isAmountText (amountToString ⟨-2 ^ 63, 1⟩) = false ∧
-    amountFromString (amountToString ⟨-2 ^ 63, 0⟩) = .error .major := by
-  constructor <;> decide +kernel
+/-- The formerly excluded point: −2^63 is written as the decimal expansion of the
+    value at every precision and read back unchanged. -/
+theorem min_int64_roundtrips (e : ℕ) (he : e ≤ 18) :
+    isAmountText (amountToString ⟨-2 ^ 63, e⟩) = true ∧
+    amountFromString (amountToString ⟨-2 ^ 63, e⟩) = .ok ⟨-2 ^ 63, e⟩ :=
+  ⟨amount_text_matches _ he (by norm_num) (by norm_num), amount_roundtrip _ he (by norm_num) (by norm_num)⟩
+
+/-- … with the texts written out for 0, 2 and 18 decimals (kernel-evaluated). -/
+theorem min_int64_texts :
+    amountToString ⟨-2 ^ 63, 0⟩ = "-9223372036854775808".toList ∧
+    amountToString ⟨-2 ^ 63, 2⟩ = "-92233720368547758.08".toList ∧
+    amountToString ⟨-2 ^ 63, 18⟩ = "-9.223372036854775808".toList := by
+  refine ⟨by decide +kernel, by decide +kernel, by decide +kernel⟩
 
 /-! ## amounts: reading -/
 
 /-- `AmountFromString` accepts **exactly** the members of the published pattern
-    that fit: integer part and decimals are each an int64, at most 18 decimals,
-    and the digits without the point do not exceed 2^63−1 (`fits64`). -/
+    that fit: at most 18 decimals, and the digits without the point, with the
+    sign of the text, are an int64 (`fits64`: −2^63 … 2^63−1). -/
 theorem amount_accepts_iff (s : Text) :
     (∃ a, amountFromString s = .ok a) ↔ (isAmountText s = true ∧ fits64 s = true) := by
-  rw [amountFromString_eq, fits64_iff]
-  unfold isAmountText
   constructor
   · rintro ⟨a, h⟩
-    cases hp : parseUnsigned (stripMinus s) with
-    | error e => rw [hp] at h; simp at h
-    | ok r =>
-      obtain ⟨h1, h2, _⟩ := parseUnsigned_ok_imp _ r hp
-      exact ⟨h1, h2⟩
+    obtain ⟨h1, h2, _⟩ := (amountFromString_ok_iff s a).mp h
+    exact ⟨h1, h2⟩
   · rintro ⟨h1, h2⟩
-    rw [parseUnsigned_ok_of _ h1 h2]
-    exact ⟨_, rfl⟩
+    exact ⟨_, (amountFromString_ok_iff s _).mpr ⟨h1, h2, rfl⟩⟩
 
 /-- What is accepted is read as the number the text denotes, at the written
     precision — never as a different number. -/
 theorem amount_reads_value (s : Text) (a : Amount) (h : amountFromString s = .ok a) :
     a.toRat = decimalValue s ∧ a.exp = decimals s := by
-  rw [amountFromString_eq] at h
-  cases hp : parseUnsigned (stripMinus s) with
-  | error e => rw [hp] at h; simp at h
-  | ok r =>
-    obtain ⟨_, hf, hr⟩ := parseUnsigned_ok_imp _ r hp
-    rw [hp, hr] at h
-    simp only [Except.ok.injEq] at h
-    have hle := unscaledBody_le _ hf
-    have hun : unscaledBody (stripMinus s) = unscaled s := rfl
-    have hdec : ((stripMinus s).dropWhile digit |>.drop 1).length = decimals s := rfl
-    rw [hun] at h hle
-    rw [hdec] at h
-    subst h
-    refine ⟨?_, rfl⟩
-    unfold Amount.toRat decimalValue pow10
-    simp only
-    by_cases hn : negative s = true
-    · simp only [hn, if_true]
-      rw [wrap64_id _ (by unfold minInt64; unfold maxInt64 at hle; omega) (by unfold maxInt64; omega)]
-      push_cast
-      ring
-    · simp only [hn]
-      simp
+  obtain ⟨_, _, rfl⟩ := (amountFromString_ok_iff s a).mp h
+  refine ⟨?_, rfl⟩
+  unfold Amount.toRat decimalValue signedUnscaled pow10
+  simp only
+  by_cases hn : negative s = true
+  · simp only [hn, if_true]
+    push_cast
+    ring
+  · simp only [hn]
+    simp
 
 /-- every rejection is an error value, and the model function is total: for every
     text exactly one of "accepted with the denoted value" / "rejected" holds -/
@@ -120,6 +105,18 @@ theorem amount_rejects_otherwise (s : Text) (h : ¬ (isAmountText s = true ∧ f
   cases hr : amountFromString s with
   | error e => exact ⟨e, rfl⟩
   | ok a => exact absurd ((amount_accepts_iff s).mp ⟨a, hr⟩) h
+
+/-- The range is the int64 range, not a symmetric one: −2^63 is read, 2^63 and
+    −2^63−1 are not, with or without decimals. -/
+theorem amount_range_boundaries :
+    amountFromString "-9223372036854775808".toList = .ok ⟨-2 ^ 63, 0⟩ ∧
+    amountFromString "-92233720368547758.08".toList = .ok ⟨-2 ^ 63, 2⟩ ∧
+    amountFromString "9223372036854775808".toList = .error .major ∧
+    amountFromString "92233720368547758.08".toList = .error .range ∧
+    amountFromString "-9223372036854775809".toList = .error .major ∧
+    amountFromString "-92233720368547758.09".toList = .error .range := by
+  refine ⟨by decide +kernel, by decide +kernel, by decide +kernel, by decide +kernel, by decide +kernel,
+    by decide +kernel⟩
 
 
 /-! ## percentages -/
@@ -139,17 +136,11 @@ private theorem pct_parse_snoc (x : Text) :
   simp only [h1, Bool.false_eq_true, if_false, getLast_snoc, beq_self_eq_true, if_true, List.dropLast_concat]
   cases amountFromString x <;> rfl
 
-/-- the written amount of an in-domain percentage -/
-private theorem pct_written (v : ℤ) (e : ℕ) (hv : |v * 10000| < 2 ^ 52) (he : e ≤ 20) :
-    ∃ A : Amount, Pct.toAmount ⟨⟨v, e⟩⟩ = A ∧ A.exp ≤ 18 ∧ |A.value * 100| < 2 ^ 52 ∧
+/-- the written amount of a percentage whose percent figure is an int64 -/
+private theorem pct_written (v : ℤ) (e : ℕ) (he : e ≤ 20) :
+    ∃ A : Amount, Pct.toAmount ⟨⟨v, e⟩⟩ = A ∧ A.exp ≤ 18 ∧ A.value = v * 10 ^ (2 - e) ∧
       A.toRat * (1 / 100) = (⟨v, e⟩ : Amount).toRat ∧ (2 ≤ e → A = ⟨v, e - 2⟩) := by
-  have hv100 : |v * 100| < 2 ^ 52 := by
-    rw [abs_lt] at hv ⊢; constructor <;> omega
-  refine ⟨_, toAmount_exact v e hv100, by simp; omega, ?_, ?_, ?_⟩
-  · simp only
-    have hk : 2 - e = 0 ∨ 2 - e = 1 ∨ 2 - e = 2 := by omega
-    rw [abs_lt] at hv ⊢
-    rcases hk with h | h | h <;> rw [h] <;> constructor <;> omega
+  refine ⟨_, toAmount_exact v e, by simp; omega, rfl, ?_, ?_⟩
   · unfold Amount.toRat pow10
     simp only
     have h10 : ((10 : ℤ) : ℚ) ≠ 0 := by norm_num
@@ -172,70 +163,81 @@ private theorem pct_written (v : ℤ) (e : ℕ) (hv : |v * 10000| < 2 ^ 52) (he 
     have e1 : 2 - e = 0 := by omega
     rw [e1]; simp
 
-/-- Writing a percentage (|value|·10^4 < 2^52, at most 20 decimals) and reading the
-    text back gives a percentage of the same value.  For ≥ 2 decimals it is the
-    identical percentage; below that the exponent is normalised to 2. -/
-theorem percentage_roundtrip_value (p : Pct) (hv : |p.amount.value * 10000| < 2 ^ 52) (he : p.amount.exp ≤ 20) :
+private theorem ofAmount_value (A : Amount) : (Pct.ofAmount A).amount.toRat = A.toRat * (1 / 100) := by
+  rw [ofAmount_exact A]
+  unfold Amount.toRat pow10
+  simp only
+  push_cast
+  rw [pow_add]
+  have h10 : ((10 : ℚ)) ^ A.exp ≠ 0 := by positivity
+  field_simp
+  norm_num
+
+/-- Writing a percentage (at most 20 decimals; the percent figure `value·10^(2−exp)`
+    an int64 — for two or more decimals that is the value itself, i.e. **every**
+    int64 value) and reading the text back gives a percentage of the same value.
+    For ≥ 2 decimals it is the identical percentage; below that the exponent is
+    normalised to 2.  No magnitude bound: the conversions no longer go through
+    float64 (former known findings `percentage-scaling-overflow`,
+    `percentage-beyond-exact-range`). -/
+theorem percentage_roundtrip_value (p : Pct) (he : p.amount.exp ≤ 20)
+    (hlo : -(2 : ℤ) ^ 63 ≤ p.amount.value * 10 ^ (2 - p.amount.exp))
+    (hhi : p.amount.value * 10 ^ (2 - p.amount.exp) < (2 : ℤ) ^ 63) :
     ∃ q, percentageFromString (pctToString p) = .ok q ∧ q.amount.toRat = p.amount.toRat ∧
       (2 ≤ p.amount.exp → q = p) := by
   obtain ⟨⟨v, e⟩⟩ := p
-  simp only at hv he
-  obtain ⟨A, hA, hAe, hAv, hrat, hsame⟩ := pct_written v e hv he
-  have hlt : |A.value| < 2 ^ 52 := by rw [abs_lt] at hAv ⊢; constructor <;> omega
-  have hrt := amount_roundtrip A hAe (by rw [abs_lt] at hlt; omega) (by rw [abs_lt] at hlt; omega)
+  simp only at he hlo hhi
+  obtain ⟨A, hA, hAe, hAv, hrat, hsame⟩ := pct_written v e he
+  have hrt := amount_roundtrip A hAe (by rw [hAv]; exact hlo) (by rw [hAv]; exact hhi)
   unfold pctToString
   rw [hA, pct_parse_snoc, hrt]
   refine ⟨Pct.ofAmount A, rfl, ?_, ?_⟩
-  · rw [ofAmount_exact A hAv, ← hrat]
-    unfold Amount.toRat pow10
-    simp only
-    push_cast
-    rw [pow_add]
-    have h10 : ((10 : ℚ)) ^ A.exp ≠ 0 := by positivity
-    field_simp
-    norm_num
+  · rw [ofAmount_value A, hrat]
   · intro h2
     simp only at h2
     have := hsame h2
     subst this
     have hq : (Pct.ofAmount ⟨v, e - 2⟩).amount = ⟨v, e⟩ := by
-      rw [ofAmount_exact _ hAv]; simp only; congr 1; omega
+      rw [ofAmount_exact]; simp only; congr 1; omega
     cases hp : Pct.ofAmount ⟨v, e - 2⟩ with
     | mk am => rw [hp] at hq; simp only at hq; rw [hq]
 
 /-- The text of a percentage is stable: writing, reading and writing again gives
     the same text. -/
-theorem percentage_text_stable (p : Pct) (hv : |p.amount.value * 10000| < 2 ^ 52) (he : p.amount.exp ≤ 20) :
+theorem percentage_text_stable (p : Pct) (he : p.amount.exp ≤ 20)
+    (hlo : -(2 : ℤ) ^ 63 ≤ p.amount.value * 10 ^ (2 - p.amount.exp))
+    (hhi : p.amount.value * 10 ^ (2 - p.amount.exp) < (2 : ℤ) ^ 63) :
     ∃ q, percentageFromString (pctToString p) = .ok q ∧ pctToString q = pctToString p := by
   obtain ⟨⟨v, e⟩⟩ := p
-  simp only at hv he
-  obtain ⟨A, hA, hAe, hAv, _, _⟩ := pct_written v e hv he
-  have hlt : |A.value| < 2 ^ 52 := by rw [abs_lt] at hAv ⊢; constructor <;> omega
-  have hrt := amount_roundtrip A hAe (by rw [abs_lt] at hlt; omega) (by rw [abs_lt] at hlt; omega)
+  simp only at he hlo hhi
+  obtain ⟨A, hA, hAe, hAv, _, _⟩ := pct_written v e he
+  have hrt := amount_roundtrip A hAe (by rw [hAv]; exact hlo) (by rw [hAv]; exact hhi)
   refine ⟨Pct.ofAmount A, ?_, ?_⟩
   · unfold pctToString; rw [hA, pct_parse_snoc, hrt]
   · unfold pctToString
     rw [hA]
-    congr 2
-    have hq := ofAmount_exact A hAv
-    cases hp : Pct.ofAmount A with
-    | mk am =>
-      rw [hp] at hq; simp only at hq; subst hq
-      rw [toAmount_exact _ _ hAv]
-      have : 2 - (A.exp + 2) = 0 := by omega
-      rw [this]; simp
+    have hback : (Pct.ofAmount A).toAmount = A := by
+      have hq := ofAmount_exact A
+      cases hp : Pct.ofAmount A with
+      | mk am =>
+        rw [hp] at hq; simp only at hq; subst hq
+        rw [toAmount_exact]
+        have : 2 - (A.exp + 2) = 0 := by omega
+        rw [this]; simp
+    rw [hback]
 
 /-- The written text is a member of `^\-?[0-9]+(\.[0-9]+)?%$`. -/
-theorem percentage_text_matches (p : Pct) (hv : |p.amount.value * 10000| < 2 ^ 52) (he : p.amount.exp ≤ 20) :
+theorem percentage_text_matches (p : Pct) (he : p.amount.exp ≤ 20)
+    (hlo : -(2 : ℤ) ^ 63 ≤ p.amount.value * 10 ^ (2 - p.amount.exp))
+    (hhi : p.amount.value * 10 ^ (2 - p.amount.exp) < (2 : ℤ) ^ 63) :
     isPercentageText (pctToString p) = true := by
   obtain ⟨⟨v, e⟩⟩ := p
-  simp only at hv he
-  obtain ⟨A, hA, hAe, hAv, _, _⟩ := pct_written v e hv he
-  have hlt : |A.value| < 2 ^ 52 := by rw [abs_lt] at hAv ⊢; constructor <;> omega
+  simp only at he hlo hhi
+  obtain ⟨A, hA, hAe, hAv, _, _⟩ := pct_written v e he
   unfold pctToString isPercentageText
   rw [hA, getLast_snoc]
   simp only [List.dropLast_concat]
-  exact amount_text_matches A hAe (by rw [abs_lt] at hlt; omega) (by rw [abs_lt] at hlt; omega)
+  exact amount_text_matches A hAe (by rw [hAv]; exact hlo) (by rw [hAv]; exact hhi)
 
 
 /-! ## percentages: reading -/
@@ -307,24 +309,38 @@ theorem percentage_leniency_witnesses :
     isPercentageText [] = false ∧ isPercentageText ['0', '.', '1', '6'] = false := by
   refine ⟨by decide, by decide, by decide, by decide⟩
 
-/-- A member of the percentage pattern whose digits, times 100, stay below 2^52 is
-    read as the number of hundredths it denotes, two decimals finer. -/
-theorem percentage_reads_value (x : Text) (a : Amount) (ha : amountFromString x = .ok a)
-    (hs : |a.value * 100| < 2 ^ 52) :
+/-- Every text `x%` whose `x` is accepted as an amount — i.e. every fitting member
+    of the percentage pattern — is read as the number of hundredths it denotes,
+    two decimals finer.  No bound on the digits any more: nothing is multiplied
+    (former known finding `percentage-scaling-overflow`) and nothing goes through
+    float64 (`percentage-beyond-exact-range`). -/
+theorem percentage_reads_value (x : Text) (a : Amount) (ha : amountFromString x = .ok a) :
     ∃ q, percentageFromString (x ++ ['%']) = .ok q ∧
-      q.amount.toRat = decimalValue x / 100 ∧ q.amount.exp = decimals x + 2 := by
+      q.amount.toRat = decimalValue x / 100 ∧ q.amount.exp = decimals x + 2 ∧ q.amount.value = a.value := by
   obtain ⟨hval, hexp⟩ := amount_reads_value x a ha
   rw [pct_parse_snoc, ha]
-  refine ⟨_, rfl, ?_, ?_⟩
-  · rw [ofAmount_exact a hs, ← hval]
-    unfold Amount.toRat pow10
-    simp only
-    push_cast
-    rw [pow_add]
-    have h10 : ((10 : ℚ)) ^ a.exp ≠ 0 := by positivity
-    field_simp
-    norm_num
-  · rw [ofAmount_exact a hs, ← hexp]
+  refine ⟨_, rfl, ?_, ?_, ?_⟩
+  · rw [ofAmount_value a, ← hval]; ring
+  · rw [ofAmount_exact a, ← hexp]
+  · rw [ofAmount_exact a]
+
+/-- so a fitting member of the published percentage pattern is never read as a
+    different number -/
+theorem percentage_pattern_reads_value (s : Text) (q : Pct) (h : isPercentageText s = true)
+    (hq : percentageFromString s = .ok q) :
+    q.amount.toRat = decimalValue s.dropLast / 100 ∧ q.amount.exp = decimals s.dropLast + 2 := by
+  obtain ⟨h1, _⟩ := (isPercentageText_iff s).mp h
+  have hsplit : s = s.dropLast ++ ['%'] := (List.dropLast_append_getLast? '%' (by simpa using h1)).symm
+  rw [hsplit, pct_parse_snoc] at hq
+  cases ha : amountFromString s.dropLast with
+  | error e => rw [ha] at hq; simp at hq
+  | ok a =>
+    obtain ⟨q', hq', h2, h3, _⟩ := percentage_reads_value s.dropLast a ha
+    rw [pct_parse_snoc, ha] at hq'
+    rw [ha] at hq
+    simp only [Except.ok.injEq] at hq hq'
+    rw [← hq, hq']
+    exact ⟨h2, h3⟩
 
 /-- without the `%` sign the accepted text is read as a plain factor ("0.160 ≡ 16.0%") -/
 theorem percentage_no_symbol_value (s : Text) (a : Amount) (hne : s ≠ []) (hl : s.getLast? ≠ some '%')
@@ -474,14 +490,25 @@ example : amountFromString "9.223372036854775808".toList = .error .range := by d
 example : amountFromString "1.0000000000000000000".toList = .error .decimals := by decide
 example : amountFromString "+5".toList = .error .majorDigits := by decide
 example : amountFromString "1.-5".toList = .error .minorDigits := by decide
-example : amountFromString "--5".toList = .error .majorDigits := by decide
+example : amountFromString "--5".toList = .error .major := by decide
+example : amountFromString "-+5".toList = .error .major := by decide
+example : amountFromString "-0.50".toList = .ok ⟨-50, 2⟩ ∧ amountFromString "-0".toList = .ok ⟨0, 0⟩ := by decide
+example : amountFromString "-.5".toList = .error .major ∧ amountFromString "-5.-3".toList = .error .minorDigits := by decide
 example : (isAmountText "1.-5".toList, isAmountText "٣".toList, isAmountText "1e2".toList, isAmountText "-0.50".toList)
     = (false, false, false, true) := by decide
 example : fits64 "922337203685477580.7".toList = true ∧ fits64 "922337203685477580.8".toList = false := by decide
+example : fits64 "-922337203685477580.8".toList = true ∧ fits64 "-922337203685477580.9".toList = false := by decide
+example : amountToString ⟨-2 ^ 63, 1⟩ = "-922337203685477580.8".toList := by decide +kernel
 example : percentageFromString "16.0%".toList = .ok ⟨⟨160, 3⟩⟩ := by decide +kernel
 example : pctToString ⟨⟨160, 3⟩⟩ = "16.0%".toList ∧ pctToString ⟨⟨5, 0⟩⟩ = "500%".toList ∧
     pctToString ⟨⟨-5, 1⟩⟩ = "-50%".toList := by decide +kernel
-example : |(160 : ℤ) * 10000| < 2 ^ 52 := by decide
+example : percentageFromString "0.123456789012345678%".toList = .ok ⟨⟨123456789012345678, 20⟩⟩ := by decide +kernel
+example : percentageFromString "123456789012345.67%".toList = .ok ⟨⟨12345678901234567, 4⟩⟩ := by decide +kernel
+example : pctToString ⟨⟨12345678901234567, 4⟩⟩ = "123456789012345.67%".toList := by decide +kernel
+example : pctToString ⟨⟨-2 ^ 63, 2⟩⟩ = "-9223372036854775808%".toList ∧
+    percentageFromString "-9223372036854775808%".toList = .ok ⟨⟨-2 ^ 63, 2⟩⟩ := by
+  constructor <;> decide +kernel
+example : (-(2 : ℤ) ^ 63 ≤ (-2 ^ 63 : ℤ) * 10 ^ (2 - 2)) ∧ ((-2 ^ 63 : ℤ) * 10 ^ (2 - 2) < 2 ^ 63) := by decide
 example : jsonSpelling [true, false, true] "1.5".toList = "\"\\u0031.\\u0035\"".toList := by decide
 example : amountUnmarshalJSON ⟨7, 1⟩ "\"\\u0031.5\"".toList = .ok ⟨15, 1⟩ := by decide
 example : amountUnmarshalJSON ⟨7, 1⟩ "\"\\u0031\\u002E5\"".toList = .ok ⟨15, 1⟩ := by decide
@@ -513,8 +540,18 @@ theorem schema_types : [amountSchemaTypeGo, amountSchemaTypeFile, percentageSche
     = ["string", "string", "string", "string"] := by decide
 theorem max_decimals : GoblVerif.Generated.Codec.maxAmountExp = GoblVerif.Codec.maxAmountExp := by decide
 theorem parser_library_calls : libcalls_AmountFromString =
-    ["strings.HasPrefix(_,\"-\")", "strings.Split(_,\".\")", "strings.TrimPrefix(_,\"-\")",
-     "strconv.ParseInt(_,10,64)", "strconv.ParseInt(_,10,64)"] := by decide
+    ["strings.HasPrefix(_,\"-\")", "strings.Split(_,\".\")", "strconv.ParseInt(_,10,64)",
+     "strings.TrimPrefix(_,\"-\")", "strconv.ParseInt(_,10,64)"] := by decide
+/-- the checks of the parser in source order: the major part's digits are checked
+    without its sign, and each side of zero has its own range check -/
+theorem parser_conditions : conds_AmountFromString =
+    ["l > 2", "err != nil", "!isDigits(strings.TrimPrefix(x[0], \"-\"))", "l == 2", "err != nil",
+     "!isDigits(x[1])", "e > maxAmountExp", "n", "v < (math.MinInt64+v2)/p", "v > (math.MaxInt64-v2)/p"] := by decide
+/-- the printer decides the sign on the value itself (it no longer negates a copy of it) -/
+theorem printer_conditions : conds_Amount_String = ["a.exp == 0", "a.exp > 1000", "a.value < 0"] := by decide
+/-- the two conversions between amounts and percentages only move the decimal point -/
+theorem percentage_conversions_shift_the_point :
+    calls_PercentageFromAmount = [] ∧ calls_Percentage_Amount = ["RescaleUp"] := by decide
 theorem printer_library_calls : libcalls_Amount_String =
     ["fmt.Sprintf(\"%d\",_)", "fmt.Sprintf(\"%s%d.%0*d\",_,_,_,_)"] := by decide
 theorem minimal_library_calls : libcalls_Amount_MinimalString =
